@@ -268,9 +268,16 @@ def bw_direct(case, Ks, W, obs, rtol=1e-7):
     fails = []
     n, r = case["n"], obs["r"]
     for b, K in enumerate(Ks):
+        if sorted(obs["perm"][b]) != list(range(n)):
+            fails.append(("backward", "member %d: the returned pivots %s are not a permutation" % (b, obs["perm"][b])))
+            continue
         piv = obs["perm"][b][:r]
         Kq = K.clone().requires_grad_(True)
-        C = torch.linalg.cholesky(Kq[piv][:, piv])
+        try:
+            C = torch.linalg.cholesky(Kq[piv][:, piv])
+        except Exception:
+            fails.append(("backward", "member %d: K[piv, piv] is not positive definite for the returned pivots %s" % (b, piv)))
+            continue
         Lr = torch.linalg.solve_triangular(C, Kq[:, piv].mT, upper=False).mT
         Wt = torch.tensor(W[b], dtype=DT)[:, :r]
         (Lr * Wt).sum().backward()
